@@ -152,11 +152,19 @@ pub trait BoxCase {
     fn lib_box_type(&self) -> u32;
     /// decode `bytes` (a box followed by anything); Ok((equals self, stream position after decode, rendering))
     fn lib_decode_eq(&self, bytes: &[u8]) -> Result<(bool, u64, String), String>;
+    /// decode two byte strings: Ok(Some((values equal, bytes left after a, bytes left after b))) when both decode,
+    /// Ok(None) when both are refused, Err(description) when exactly one is refused or a decode panics
+    fn lib_decode_both(&self, a: &[u8], b: &[u8]) -> Result<Option<(bool, u64, u64)>, String>;
+    /// as `lib_decode_eq`, with the box located behind `lead` bytes of the stream (position returned relative to the box)
+    fn lib_decode_eq_at(&self, lead: &[u8], bytes: &[u8]) -> Result<(bool, u64, String), String>;
     /// decode, re-encode, decode again: Ok(Some(true)) fixpoint, Ok(None) if the first decode or the re-encode fails
     fn lib_fixpoint(&self, bytes: &[u8]) -> Result<Option<bool>, String>;
     fn ref_bytes(&self, large: bool) -> Vec<u8>;
     /// the reference bytes with each descendant box in turn written with the 64-bit size header: (path, bytes)
     fn ref_bytes_descendant_large(&self) -> Vec<(String, Vec<u8>)>;
+    /// for every container inside the box (itself included) and every child index: the reference bytes with an
+    /// uninterpreted child inserted there, once with the compact and once with the 64-bit size header: (where, compact, 64-bit)
+    fn ref_bytes_inserted_child(&self) -> Vec<(String, Vec<u8>, Vec<u8>)>;
     /// mask over the whole box (header included): 0xff = compare, bits cleared = reserved positions
     fn mask(&self) -> Option<Vec<u8>>;
     /// the library cannot represent an encode-side value of this shape (decode-only comparison)
@@ -204,13 +212,36 @@ where
         self.lib.box_type().into()
     }
     fn lib_decode_eq(&self, bytes: &[u8]) -> Result<(bool, u64, String), String> {
-        let mut cur = Cursor::new(bytes.to_vec());
+        self.lib_decode_eq_at(&[], bytes)
+    }
+    fn lib_decode_both(&self, a: &[u8], b: &[u8]) -> Result<Option<(bool, u64, u64)>, String> {
+        let dec = |x: &[u8]| {
+            let mut cur = Cursor::new(x.to_vec());
+            let r = guard(|| {
+                let h = BoxHeader::read(&mut cur)?;
+                B::read_box(&mut cur, h.size)
+            });
+            (r, x.len() as u64 - cur.position().min(x.len() as u64))
+        };
+        match (dec(a), dec(b)) {
+            ((Err(p), _), _) | (_, (Err(p), _)) => Err(format!("PANIC {}", short_loc(&p))),
+            ((Ok(Ok(va)), la), (Ok(Ok(vb)), lb)) => Ok(Some((va == vb, la, lb))),
+            ((Ok(Err(_)), _), (Ok(Err(_)), _)) => Ok(None),
+            ((Ok(Ok(_)), _), (Ok(Err(e)), _)) => Err(format!("the first form decodes, the second is refused: {}", e)),
+            ((Ok(Err(e)), _), (Ok(Ok(_)), _)) => Err(format!("the second form decodes, the first is refused: {}", e)),
+        }
+    }
+    fn lib_decode_eq_at(&self, lead: &[u8], bytes: &[u8]) -> Result<(bool, u64, String), String> {
+        let mut all = lead.to_vec();
+        all.extend_from_slice(bytes);
+        let mut cur = Cursor::new(all);
+        cur.set_position(lead.len() as u64);
         let r = guard(|| {
             let h = BoxHeader::read(&mut cur)?;
             B::read_box(&mut cur, h.size)
         });
         match r {
-            Ok(Ok(v)) => Ok((v == self.lib, cur.position(), format!("{:?}", v))),
+            Ok(Ok(v)) => Ok((v == self.lib, cur.position().wrapping_sub(lead.len() as u64), format!("{:?}", v))),
             Ok(Err(e)) => Err(format!("Err({})", e)),
             Err(p) => Err(format!("PANIC {}", short_loc(&p))),
         }
@@ -274,6 +305,52 @@ where
                 (name, serialize(&[root]).0)
             })
             .collect()
+    }
+    fn ref_bytes_inserted_child(&self) -> Vec<(String, Vec<u8>, Vec<u8>)> {
+        fn containers(n: &Node, cur: &mut Vec<usize>, out: &mut Vec<Vec<usize>>) {
+            if let Some(k) = n.children() {
+                out.push(cur.clone());
+                for (i, c) in k.iter().enumerate() {
+                    cur.push(i);
+                    containers(c, cur, out);
+                    cur.pop();
+                }
+            }
+        }
+        let mut all = vec![];
+        containers(&self.node, &mut vec![], &mut all);
+        let mut out = vec![];
+        for p in all.iter() {
+            let nk = {
+                let mut n = &self.node;
+                for &i in p.iter() {
+                    n = &n.children().unwrap()[i];
+                }
+                n.children().unwrap().len()
+            };
+            for pos in 0..=nk {
+                for (fname, filler) in [("free", Node::leaf(b"free", vec![0x5a; 3])), ("zzzz", Node::leaf(b"zzzz", vec![1, 2, 3, 4, 5]))] {
+                    let build = |large: bool| {
+                        let mut root = self.node.clone();
+                        let mut name = root.name();
+                        {
+                            let mut n = &mut root;
+                            for &i in p.iter() {
+                                n = &mut n.children_mut().unwrap()[i];
+                                name.push('/');
+                                name.push_str(&n.name());
+                            }
+                            n.children_mut().unwrap().insert(pos, filler.clone().with_large(large));
+                        }
+                        (name, serialize(&[root]).0)
+                    };
+                    let (name, a) = build(false);
+                    let (_, b) = build(true);
+                    out.push((format!("{} inserted in {} at index {}", fname, name, pos), a, b));
+                }
+            }
+        }
+        out
     }
     fn mask(&self) -> Option<Vec<u8>> {
         self.payload_mask.as_ref().map(|m| {
@@ -1104,7 +1181,11 @@ pub fn g_ilst(items: &[usize], v: &mut V) -> (IlstBox, Node) {
     (IlstBox { items: map }, rb::ilst(nodes))
 }
 
-pub fn g_meta_unknown(nkids: usize, v: &mut V) -> (MetaBox, Node) {
+/// Child types of a meta box with an unknown handler: opaque ones and ones that mean something elsewhere in the format.
+pub const META_CHILD_KINDS: [[u8; 4]; 6] = [*b"key0", *b"free", *b"ilst", *b"data", *b"skip", *b"mdat"];
+
+pub fn g_meta_unknown(kinds: &[usize], v: &mut V) -> (MetaBox, Node) {
+    let nkids = kinds.len();
     let (h, hn) = g_hdlr(v);
     let h = HdlrBox { handler_type: fcc(*b"mdta"), ..h };
     let mut hn = hn;
@@ -1114,7 +1195,7 @@ pub fn g_meta_unknown(nkids: usize, v: &mut V) -> (MetaBox, Node) {
     let mut data = vec![];
     let mut kids = vec![hn];
     for i in 0..nkids {
-        let cc = [b'k', b'e', b'y', b'0' + i as u8];
+        let cc = META_CHILD_KINDS[kinds[i]];
         let b = v.bytes(4 + i);
         data.push((BoxType::from(u32::from_be_bytes(cc)), b.clone()));
         kids.push(Node::leaf(&cc, b));
@@ -1296,8 +1377,18 @@ pub fn all_cases(tier: Tier) -> Vec<Box<dyn BoxCase>> {
     for items in [vec![], vec![0usize], vec![3]] {
         add!("meta", format!("mdir items={:?}", items), |v: &mut V| g_meta_mdir(&items, v));
     }
-    for n in 0..=2usize {
-        add!("meta", format!("unknown handler, {} children", n), |v: &mut V| g_meta_unknown(n, v));
+    {
+        let mut kind_lists: Vec<Vec<usize>> = vec![vec![]];
+        for a in 0..META_CHILD_KINDS.len() {
+            kind_lists.push(vec![a]);
+            for b in 0..META_CHILD_KINDS.len() {
+                kind_lists.push(vec![a, b]);
+            }
+        }
+        for kl in kind_lists {
+            let names: Vec<String> = kl.iter().map(|k| String::from_utf8_lossy(&META_CHILD_KINDS[*k]).to_string()).collect();
+            add!("meta", format!("unknown handler, children {:?}", names), |v: &mut V| g_meta_unknown(&kl, v));
+        }
     }
     for m in [false, true] {
         add!("udta", format!("meta={}", m), |v: &mut V| g_udta(m, v));
